@@ -47,8 +47,9 @@ type (
 // NewPeriodicalExecutor returns a PeriodicalExecutor with given interval and container.
 func NewPeriodicalExecutor(interval time.Duration, container TaskContainer) *PeriodicalExecutor {
 	executor := &PeriodicalExecutor{
-		// buffer 1 to let the caller go quickly
-		commander:   make(chan any, 1),
+		// unbuffered, a batch is handed over only when the flusher takes it, so the
+		// confirmation that follows always belongs to the producer that is waiting for it
+		commander:   make(chan any),
 		interval:    interval,
 		container:   container,
 		confirmChan: make(chan lang.PlaceholderType),
